@@ -25,6 +25,13 @@
 (* ProcessWorker.wait takes the arrival of the final message for the child's death         *)
 (* (must be rejected by C04_Truthful).                                                     *)
 (*                                                                                        *)
+(* Target behaviour "slowres" (persistent remote kind): the child is idle, but the frontend *)
+(* thread in the caller's process is busy for longer than any timeout (it is rebuilding a   *)
+(* result): after the remote child has been terminated the WORKER is not dead yet.          *)
+(* RemDeadMeansDead = TRUE is the variant in which RemoteWorker.terminate answers True as   *)
+(* soon as the remote child is known to be gone (must be rejected by C04_Stable: a later    *)
+(* is_alive()/wait() contradicts the True).                                                 *)
+(*                                                                                        *)
 (* Fix = set of proposed repairs that are applied:                                        *)
 (*   "poll"   ProcessWorker.terminate polls the control pipe with the timeout             *)
 (*   "kill"   force-terminate escalates SIGTERM -> SIGKILL (process.py, remote.py)        *)
@@ -33,7 +40,7 @@
 (* Fix = {} is the code as it is.                                                         *)
 EXTENDS Naturals, Sequences, FiniteSets, TLC, LifecycleProps
 
-CONSTANTS Fix, MaxOps, Free, Hist, Cases, ReportMeansDead
+CONSTANTS Fix, MaxOps, Free, Hist, Cases, ReportMeansDead, RemDeadMeansDead
 
 VARIABLES case,   \* the scenario (constant after Init): [id, kind, pers, beh, start, ops]
           c,      \* child process/thread
@@ -66,10 +73,10 @@ Init ==
              resSent |-> case.start = "dead"]
      /\ p = [pc |-> "idle", cur |-> "none", deadF |-> FALSE, remDead |-> FALSE, closed |-> FALSE,
              waited |-> FALSE, nops |-> 0, k |-> 0, pre |-> "none", selfk |-> FALSE, fshut |-> FALSE,
-             stopped |-> FALSE, calls |-> <<>>]
+             stopped |-> FALSE, said |-> FALSE, calls |-> <<>>]
      /\ LET rem == case.kind = "remote" /\ case.start # "notrun" IN
         s = [rpc |-> IF rem THEN "idle" ELSE "done", rmsg |-> "none", rrep |-> "none",
-             rsock |-> rem, fab |-> FALSE, dup |-> rem, fpc |-> IF rem THEN "wait" ELSE "done"]
+             rsock |-> rem, fab |-> FALSE, dup |-> rem, fpc |-> IF rem THEN (IF case.beh = "slowres" THEN "busy" ELSE "wait") ELSE "done"]
 
 Dead == c.cos = "dead"
 OsNow   == IF Dead THEN "dead" ELSE "alive"
@@ -79,7 +86,7 @@ PreNow  == IF ~Started \/ (Dead /\ (Remote => s.fpc = "done")) THEN "dead" ELSE 
 (* ------------------------------- the child -------------------------------------------- *)
 \* C needs the interpreter: nothing of the child runs unless cos = "run"
 G_Land == c.cos = "run" /\ c.cpc = "target" /\ c.async /\ case.beh \in {"coop", "swallow"}
-G_Wake == c.cos = "run" /\ c.cpc = "target" /\ case.beh = "idle" /\ c.rel
+G_Wake == c.cos = "run" /\ c.cpc = "target" /\ case.beh \in {"idle", "slowres"} /\ c.rel
 G_Fin  == c.cos = "run" /\ (c.cpc \in {"fin_rel", "exit"} \/ (c.cpc = "fin_join" /\ c.kpc = "done"))
 G_Ret  == c.cos = "run" /\ c.cpc = "target" /\ case.beh = "linger"          \* the target returns at once
 G_K    == c.cos = "run" /\ c.kpc # "done" /\ (c.kpc = "recv" => c.kbox # <<>>)
@@ -128,7 +135,7 @@ G_R == /\ s.rpc # "done"
             [] s.rpc \in {"r_wjoin", "r_tj1", "r_tj2", "r_tj3"} -> Dead \/ RTimeout(OpT(p.cur))
             [] OTHER -> TRUE
 DataEOF == Dead /\ ~s.dup
-G_F == /\ s.fpc # "done"
+G_F == /\ s.fpc \notin {"done", "busy"}
        /\ IF s.fpc = "wait" THEN c.resSent \/ s.fab \/ DataEOF \/ p.fshut ELSE DataEOF \/ p.fshut
 
 RepNow == IF Dead THEN "T" ELSE "F"
@@ -162,6 +169,10 @@ FStep == /\ G_F
                  ELSE [s EXCEPT !.fpc = "done"]
          /\ UNCHANGED <<case, c, p>>
 
+SlowEnd == /\ s.fpc = "busy"                   \* the frontend thread is done with the slow result (slower than any timeout: not part of G_F)
+           /\ s' = [s EXCEPT !.fpc = "wait"]
+           /\ UNCHANGED <<case, c, p>>
+
 (* ------------------------------- the caller -------------------------------------------- *)
 PTimeout(t) == t = "0" \/ (QuietChild /\ ~G_R /\ ~G_F)
 T  == OpT(p.cur)
@@ -169,9 +180,9 @@ Fc == OpForce(p.cur)
 N  == OpN(p.cur)
 
 RecW(v, w) == [op |-> p.cur, ret |-> v, durc |-> "ok", fast |-> IF p.waited \/ w THEN "F" ELSE "T", pre |-> p.pre,
-               os_ret |-> OsNow, os_grace |-> OsGrace, selfsig |-> "F"]
+               os_ret |-> OsNow, os_grace |-> OsGrace, selfsig |-> "F", after_true |-> IF p.said THEN "T" ELSE "F"]
 Rec(v) == RecW(v, FALSE)
-RetW(v, dead, w) == p' = [p EXCEPT !.pc = "idle", !.nops = @ + 1, !.deadF = (@ \/ dead),
+RetW(v, dead, w) == p' = [p EXCEPT !.pc = "idle", !.nops = @ + 1, !.deadF = (@ \/ dead), !.said = (@ \/ (p.cur \in WTOps /\ v = "T")),
                                    !.calls = IF Hist THEN Append(@, RecW(v, w)) ELSE <<RecW(v, w)>>]
 Ret(v, dead) == RetW(v, dead, FALSE)
 Goto(l) == p' = [p EXCEPT !.pc = l]
@@ -204,7 +215,7 @@ Release == c' = [c EXCEPT !.rel = (@ \/ ~p.closed)]
 PStep ==
   /\ p.pc \notin {"idle", "selfkill"}
   /\ CASE p.pc \in {"w_chk", "t_chk"} ->
-          IF ~Started \/ p.deadF THEN Ret("T", FALSE) /\ UNCHANGED <<c, s>>
+          IF ~Started \/ p.deadF \/ (RemDeadMeansDead /\ Remote /\ p.pc = "t_chk" /\ p.remDead) THEN Ret("T", FALSE) /\ UNCHANGED <<c, s>>
           ELSE IF Remote THEN Goto(IF p.pc = "w_chk" /\ Pers THEN "w_close" ELSE IF p.remDead THEN "x_joinF" ELSE "x_send") /\ UNCHANGED <<c, s>>
           ELSE IF Dead THEN Ret("T", TRUE) /\ UNCHANGED <<c, s>>
           ELSE Goto(IF p.pc = "w_chk" THEN (IF Pers THEN "w_close" ELSE "w_join")
@@ -292,10 +303,10 @@ PStep ==
           /\ UNCHANGED s
   /\ UNCHANGED case
 
-Next == (\E o \in Alphabet : Begin(o)) \/ Stop \/ StopNoop \/ PStep \/ Land \/ Wake \/ Fin \/ Return \/ LingerEnd \/ KStep \/ Die \/ RStep \/ FStep
+Next == (\E o \in Alphabet : Begin(o)) \/ Stop \/ StopNoop \/ PStep \/ Land \/ Wake \/ Fin \/ Return \/ LingerEnd \/ KStep \/ Die \/ RStep \/ FStep \/ SlowEnd
 Spec == /\ Init /\ [][Next]_vars
         /\ WF_vars(PStep) /\ WF_vars(Land) /\ WF_vars(Wake) /\ WF_vars(Fin) /\ WF_vars(Return) /\ WF_vars(LingerEnd) /\ WF_vars(KStep) /\ WF_vars(Die)
-        /\ WF_vars(RStep) /\ WF_vars(FStep)
+        /\ WF_vars(RStep) /\ WF_vars(FStep) /\ WF_vars(SlowEnd)
 
 (* ------------------------------- properties -------------------------------------------- *)
 Scn == [kind |-> case.kind, pers |-> case.pers, beh |-> case.beh, start |-> case.start]
@@ -306,11 +317,12 @@ AtRest == p.pc = "idle"
 TypeOK == /\ c.cos \in {"run", "frozen", "stopped", "dead"}
           /\ c.kpc \in {"recv", "raise", "close", "done"}
           /\ c.cpc \in {"target", "fin_rel", "fin_join", "exit", "linger", "gone"}
-          /\ s.fpc \in {"wait", "ust", "done"}
+          /\ s.fpc \in {"busy", "wait", "ust", "done"}
           /\ p.nops <= MaxOps \/ ~Free
 Inv_Truthful == AtRest => C04_Truthful(R0)
 Inv_DeadFast == AtRest => C04_DeadFast(R0)
 Inv_Force    == AtRest => C04_Force(R0)
+Inv_Stable   == AtRest => C04_Stable(R0)
 Inv_NoSelfKill == ~p.selfk
 \* wait/terminate always come back: every call in progress eventually returns
 Live_Returns == (p.pc # "idle") ~> (p.pc = "idle")
